@@ -1,9 +1,9 @@
 SPECIFICATION Spec
-CONSTANTS P = 3
-          L = 2
-          MaxClock = 10
+CONSTANTS P = 2
+          L = 3
+          MaxClock = 12
           MaxPeerKa = 2
-          MaxReconnects = 0
+          MaxReconnects = 1
           MaxBlocks = 1
 INVARIANT TypeOK
 INVARIANT NoFalseTimeout
